@@ -193,12 +193,19 @@ def _update_sigma(rp, st):
 # ---------------------------------------------------------------------------------------------
 # polynomial integrals
 # ---------------------------------------------------------------------------------------------
-def _coef_kwargs(cs, mat_name, vec_name):
+def _int_array(x):
+    return jnp.asarray(np.array(x, dtype=np.int64))
+
+
+def _coef_kwargs(cs, mat_name, vec_name, int_mats=False):
+    """int_mats: coefficient matrices whose menu entries are integers are handed over as INTEGER-dtype arrays (a selection
+    matrix written with integer literals); the vectors stay float."""
     kw = {}
+    as_int = int_mats and cs["mm"] != "none" and all(c["d"] == 1 for c in cs["mat"])
     if cs["mm"] == "shared":
-        kw[mat_name] = A(qarr(cs["mat"][0]))
+        kw[mat_name] = _int_array(cs["mat"][0]["n"]) if as_int else A(qarr(cs["mat"][0]))
     elif cs["mm"] == "per":
-        kw[mat_name] = stack_q(cs["mat"])
+        kw[mat_name] = _int_array([c["n"] for c in cs["mat"]]) if as_int else stack_q(cs["mat"])
     if cs["vm"] == "shared":
         kw[vec_name] = A(qarr(cs["vec"][0]))
     elif cs["vm"] == "per":
@@ -223,20 +230,33 @@ def _integrate(rp, st):
         for nm, cs in (("A", a["A"]), ("B", a["B"]), ("C", a["C"]), ("D", a["D"])):
             kw.update(_coef_kwargs(cs, f"{nm}_mat", f"{nm.lower()}_vec"))
     val = o.integrate(key, **kw)
+    # the same integral with integer-valued coefficient matrices passed as integer-dtype arrays (real coefficients may be
+    # written as integer literals, e.g. selection matrices; the result must not depend on the dtype of the container)
+    val_int = None
+    if key != "xb'xx'":
+        kwi = {}
+        for nm, cs in (("A", a["A"]), ("B", a["B"]), ("C", a["C"]), ("D", a["D"])):
+            kwi.update(_coef_kwargs(cs, f"{nm}_mat", f"{nm.lower()}_vec", int_mats=True))
+        if any(jnp.issubdtype(v.dtype, jnp.integer) for v in kwi.values()):
+            val_int = o.integrate(key, **kwi)
     exact = bool(rp.flags.get(a["i"], {}).get("exact")) and _all_integer([a["A"], a["B"], a["C"], a["D"]]) \
         and rp.mode == "eager"
 
     def chk(val, exp):
+        val, vi = val
         val = np.asarray(val)
         mass = np.exp(np.asarray(to_float(exp["ln"]), dtype=float))
         c = np.asarray(to_float(exp["c"]), dtype=float)
         e = mass.reshape((-1,) + (1,) * (c.ndim - 1)) * c
         cmp_lin("return", val, e)
+        if vi is not None:
+            rp.count("integer_dtype_coefficient_calls")
+            cmp_lin("return[integer-dtype matrices]", np.asarray(vi), e)
         if exact:
             rp.count("exact_mode_bit_exact_comparisons")
         if exact and not np.array_equal(val, e):
             raise Mismatch("return.exact", val.tolist(), e.tolist(), "exact mode: integer inputs, result not bit-exact")
-    return None, ("custom", val, chk)
+    return None, ("custom", (val, val_int), chk)
 
 
 @binding("IntegrateLogFactor")
